@@ -1,12 +1,12 @@
 package main
 
 import (
-	"os"
 	"encoding/base64"
 	"encoding/json"
 	"fmt"
 	"net/http"
 	"net/http/httptest"
+	"os"
 	"sort"
 	"strings"
 	"time"
